@@ -44,5 +44,5 @@ mod harness {
             fn $name() { crate::bodies::$name(&mut K) }
         )* };
     }
-    proof!(eq_text / 8, eq_text_symmetric / 8, eq_bytes / 8, eq_concatenations / 10, cmp_text / 8, truthiness / 8, xor_classifies / 8, defer_protocol / 8, access_list / 8, access_concat_index / 6);
+    proof!(eq_text / 8, eq_text_symmetric / 8, eq_bytes / 8, eq_concatenations / 10, cmp_text / 8, truthiness / 8, xor_classifies / 8, end_expression_returns_to_caller / 6, defer_protocol / 8, access_list / 8, access_concat_index / 6);
 }
